@@ -352,17 +352,43 @@ func run(c Case) ev.Verdict {
 
 	var v ev.Verdict
 
-	for i := 0; i < n; i++ {
-		v = run1(c)
-		if !v.OK || v.Infeasible {
+	// The callback loop works against the wall clock (its reader spins, so it cannot run under a
+	// virtual clock) with timeouts of tens of milliseconds: on a loaded machine a starved reader
+	// legitimately times out before it has looked at a chunk. A failure therefore only counts if it
+	// reproduces with every time constant stretched 5x and 25x, where starvation is negligible; a
+	// defect in the trigger logic does not depend on the time scale.
+	for _, scale := range []int{1, 5, 25} {
+		for i := 0; i < n; i++ {
+			v = run1(c, scale)
+			if !v.OK || v.Infeasible {
+				break
+			}
+		}
+
+		if v.OK {
+			if scale > 1 {
+				ev.Count("callbacks", fmt.Sprintf("passed_only_at_time_scale_%d", scale), 1)
+			}
+
 			return v
 		}
+
+		v.Msg = fmt.Sprintf("%s [time scale %dx]", v.Msg, scale)
 	}
 
 	return v
 }
 
-func run1(c Case) ev.Verdict {
+func run1(c Case, scale int) ev.Verdict {
+	c.TimeoutMS *= scale
+
+	c.Callbacks = append([]CB(nil), c.Callbacks...)
+	for i := range c.Callbacks {
+		c.Callbacks[i].NextTimeoutMS *= scale
+	}
+
+	young := time.Duration(scale) * 50 * time.Millisecond
+
 	dev := &scriptDev{c: &c}
 	pipe := sim.NewPipe(dev)
 	pipe.Plan = c.Plan
@@ -572,7 +598,7 @@ func run1(c Case) ev.Verdict {
 				continue
 			}
 
-			if n < len(chunks) && gotEnd == "timeout" && chunkAge[n] > 50*time.Millisecond {
+			if n < len(chunks) && gotEnd == "timeout" && chunkAge[n] > young {
 				// a timeout must have looked at everything that arrived well before it fired (a
 				// chunk handed over by the transport in the last moments may not have reached the
 				// callback loop yet: wall-clock tier)
